@@ -214,3 +214,95 @@ def install(g, judge_ops=None, rate=0.12, cap=1500, cap_thorough=12000, illforme
                     n += 1
                     yield lc
     g["gen"] = gen
+
+
+# ------------------------------------------------------------------------------------------------------------
+# the same for Textgrid objects (C12): a random walk of mutators on ONE living Textgrid
+#     {"op": "tg_living", "tg": spec, "steps": [{...a tgops step without "tg"...}, ...]}
+# ------------------------------------------------------------------------------------------------------------
+def is_tg_living(c):
+    return c.get("op") == "tg_living"
+
+
+def impl_tg(c):
+    import tgops
+    g = tgops.build(c["tg"])
+    out = []
+    for s in c["steps"]:
+        pre = tgops.snap(g)
+        step = dict({k: v for k, v in s.items() if k != "judge"}, tg=pre)
+        try:
+            tgops.build(pre)
+        except Exception as e:  # noqa: BLE001
+            out.append((step, None, ("illformed", type(e).__name__, str(e)[:200])))
+            break
+        fresh = tgops.impl(dict(step))
+        r = tgops.impl(dict(step), {"tg": g})
+        out.append((step, r, fresh))
+    return ("living", out)
+
+
+def oracle_tg(prop_oracle, c, r):
+    for i, (step, rl, rf) in enumerate(r[1]):
+        where = f"step {i} ({step['op']}) of a history on one living Textgrid {[s['op'] for s in c['steps']]}"
+        if rl is None:
+            return Failure({"clause": "living-object-ill-formed", "op": c["steps"][i - 1]["op"] if i else "build", "living": True},
+                           f"{where}: the textgrid's observable state {step['tg']} cannot be rebuilt through the public API ({rf[1]}: {rf[2]})")
+        if c["steps"][i].get("judge", True):
+            f = prop_oracle(step, rl)
+            if f is not None:
+                return Failure(dict(f.signature, living=True), f"{where}: {f.message}")
+        if rl[:2] != rf[:2] or (rl[0] == "err" and rl[-1] != rf[-1]):
+            return Failure({"clause": "history-dependence", "op": step["op"], "living": True},
+                           f"{where}: on the object with a past {_short(rl)}, on a fresh textgrid with the same tiers {_short(rf)}")
+    return None
+
+
+def tg_walks(rnd, all_ops, n, maxlen):
+    import tgops
+    for _ in range(n):
+        start = {"lo": None, "hi": None, "tiers": []}
+        st, steps = start, []
+        for _ in range(rnd.randint(2, maxlen)):
+            ops = list(all_ops(st))
+            # favour operations that succeed (most index / name combinations are rejected)
+            kind = rnd.choice(sorted({o["op"] for o in ops}))       # each kind of mutator equally often
+            ops = [o for o in ops if o["op"] == kind]
+            c = rnd.choice(ops)
+            if c.get("anyerr") and rnd.random() < 0.7:
+                c = rnd.choice(ops)
+            steps.append({k: v for k, v in c.items() if k not in ("tg", "grid", "depth")})
+            r = tgops.impl(dict(c))
+            if r[0] == "ok":
+                st = r[1]
+            if rnd.random() < 0.2:
+                steps.append({"op": "tg_validate"})
+        yield {"op": "tg_living", "tg": start, "steps": steps, "grid": False}
+
+
+def install_tg(g, all_ops, n=600, n_thorough=6000, maxlen=8):
+    o_enc, o_impl, o_render, o_oracle = g["encode"], g["impl"], g["render"], g["oracle"]
+    o_tags, o_nt, o_wx, o_gen, o_shrink = g["tags"], g["nontrivial"], g["wants_x"], g["gen"], g.get("shrink")
+    g["encode"] = lambda c, enc: "skip" if is_tg_living(c) else o_enc(c, enc)
+    g["impl"] = lambda c, *a: impl_tg(c) if is_tg_living(c) else o_impl(c, *a)
+    g["render"] = lambda c, r, enc: "ok skip" if is_tg_living(c) else o_render(c, r, enc)
+    g["oracle"] = lambda c, r: oracle_tg(o_oracle, c, r) if is_tg_living(c) else o_oracle(c, r)
+    g["tags"] = lambda c, r: ({"living"} | {"living:" + s["op"] for s, _, _ in r[1]}) if is_tg_living(c) else o_tags(c, r)
+    g["nontrivial"] = lambda c, r: True if is_tg_living(c) else o_nt(c, r)
+    g["wants_x"] = lambda c: False if is_tg_living(c) else o_wx(c)
+    if o_shrink is not None:
+        def shr(c):
+            if not is_tg_living(c):
+                yield from o_shrink(c)
+                return
+            for i in range(len(c["steps"])):
+                if len(c["steps"]) > 1:
+                    yield dict(c, steps=c["steps"][:i] + c["steps"][i + 1:])
+        g["shrink"] = shr
+
+    def gen(rnd, tier):
+        import random
+        lr = random.Random(rnd.random())
+        yield from o_gen(rnd, tier)
+        yield from tg_walks(lr, all_ops, n_thorough if tier == "thorough" else n, maxlen)
+    g["gen"] = gen
